@@ -1,3 +1,73 @@
-"""placeholder; replaced below by the real witness runner"""
+"""witness — runs the compile_fail / no_run doctests of /verif/witness against the repository under
+analysis (`cargo +nightly test --doc --offline`; error codes are only honoured on nightly).
+Nothing is executed: compile_fail tests stop at type checking, twins are `no_run`.
+Results are cached per (tree hash, witness source hash)."""
+import fcntl
+import hashlib
+import json
+import os
+import re
+import shutil
+import subprocess
+
+from . import factcache
+
+VERIF = factcache.VERIF
+
+
+def _run_all(repo):
+    src = os.path.join(VERIF, "witness", "src", "lib.rs")
+    with open(src, "rb") as fh:
+        wh = hashlib.sha256(fh.read()).hexdigest()[:12]
+    th = factcache.tree_hash(repo)
+    outdir = os.path.join(factcache.CACHE, "facts", th)
+    os.makedirs(outdir, exist_ok=True)
+    cache = os.path.join(outdir, f"witness-{wh}.json")
+    tag = factcache._repo_tag(repo)
+    with open(os.path.join(factcache.CACHE, f"witness-{tag}.lock"), "w") as lk:
+        fcntl.flock(lk, fcntl.LOCK_EX)
+        if os.path.exists(cache):
+            return json.load(open(cache))
+        work = os.path.join(factcache.CACHE, f"witness-{tag}")
+        os.makedirs(os.path.join(work, "src"), exist_ok=True)
+        shutil.copy(src, os.path.join(work, "src", "lib.rs"))
+        with open(os.path.join(work, "Cargo.toml"), "w") as fh:
+            fh.write(f'[package]\nname = "grenad-witness"\nversion = "0.0.0"\nedition = "2021"\n\n[dependencies]\ngrenad = {{ path = "{os.path.abspath(repo)}" }}\n\n[workspace]\n')
+        shutil.copy(os.path.join(repo, "Cargo.lock"), os.path.join(work, "Cargo.lock"))
+        target = os.path.join(factcache.CACHE, "target", f"witness-{tag}")
+        seed = os.path.join(factcache.CACHE, "target", f"witness-{factcache._repo_tag('/repo')}")
+        if not os.path.exists(target) and os.path.exists(seed) and seed != target:
+            shutil.copytree(seed, target, symlinks=True)
+        env = factcache.base_env()
+        env["CARGO_TARGET_DIR"] = target
+        env["RUSTFLAGS"] = "-Awarnings"
+        env["RUSTDOCFLAGS"] = "-Awarnings"
+        r = subprocess.run(["cargo", "+nightly", "test", "--doc", "--offline", "--", "--test-threads", "16"], cwd=work, env=env, capture_output=True, text=True)
+        out = r.stdout + r.stderr
+        res = {}
+        for m in re.finditer(r"^test src/lib\.rs - (\S+) \(line \d+\)(?: - (compile fail|compile))? \.\.\. (\w+)", out, re.M):
+            res[m.group(1)] = {"kind": m.group(2) or "run", "result": m.group(3)}
+        data = {"tests": res, "rc": r.returncode, "tail": out[-1500:] if not res else ""}
+        if res:
+            with open(cache, "w") as fh:
+                json.dump(data, fh)
+        return data
+
+
 def run(ck, pid):
-    return None
+    R = f"{pid}-WIT"
+    data = _run_all(ck.repo)
+    prefix = pid.lower() + "_"
+    tests = {k: v for k, v in data["tests"].items() if k.startswith(prefix)}
+    fails = {k[:-len("_fails")]: v for k, v in tests.items() if k.endswith("_fails")}
+    twins = {k[:-len("_twin")]: v for k, v in tests.items() if k.endswith("_twin")}
+    if not tests:
+        ck.ob(R, "witnesses-ran", False, f"no witness result for {pid} (cargo test --doc rc={data['rc']}): {data.get('tail', '')[-400:]}", nontrivial=False)
+        return
+    for name in sorted(set(fails) | set(twins)):
+        f, t = fails.get(name), twins.get(name)
+        okf = f is not None and f["result"] == "ok" and f["kind"] == "compile fail"
+        okt = t is not None and t["result"] == "ok"
+        ck.ob(R, f"witness/{name}", okf and okt, f"{name}: the violating program is rejected by the compiler with the expected error ({'ok' if okf else 'NOT rejected / wrong error'}), its twin without the offending line compiles ({'ok' if okt else 'DOES NOT COMPILE'})", config="witness")
+    want = {"C17": 15, "C03": 1, "C08": 1}.get(pid, 1)
+    ck.floor(R, f"witness pairs for {pid}", len(set(fails) & set(twins)), want, "witness")
